@@ -245,3 +245,10 @@ VARIANTS += [
       "              t_from_ode(ode))\n        index += 1\n\n", "fire",
       "D10.9", "seed C10-training-j-with-default-gamma (last loop)"),
 ]
+
+VARIANTS += [
+    V("system-dims-in-j-from-dim-mod",
+      "moptipyapps/dynamic_control/system.py",
+      "            else state_dims_in_j", "            else state_dim_mod",
+      "fire", "D10.9", "seed C10-system-dims-in-j-from-dim-mod"),
+]
